@@ -15,7 +15,7 @@ func init() {
 	register(&Prop{
 		ID:    "C13",
 		Title: "The in-process wrapper is indistinguishable from a real gRPC connection",
-		Explanation: "Decides the clauses the statement spells out structurally. R13.1 a message received from the other side of the in-process stream is used only as the source of permissiveProtoMerge (copied into the receiver's own message), which itself only reads it. R13.2 Invoke answers an unknown method with ErrMethodNotFound (Unimplemented) and NewStream with Unimplemented for unknown methods and ErrMethodShape (Internal) for a streaming-shape mismatch, all before a handler goroutine is started. R13.3 every path of both handler goroutines ends in ClientServerStream.Close, every channel operation in stream.go that can block is a select alternative to the stream context's Done, and Close cancels that context after closing serverSend. R13.4 the server's incoming metadata is a clone of the client's outgoing metadata and header/trailer handed to call options are clones. R13.5 headerC is closed only under headerM behind a not-yet-closed test. R13.6 Close assigns the error, then closes serverSend, then cancels. Also R13.7 ServerToClient registers every method and stream of the descriptor under /service/method. Does NOT decide the property's core: equality of transcripts with a real gRPC transport for every script, status mapping of cancellation and deadlines, ordering of header versus messages.",
+		Explanation: "Decides the clauses the statement spells out structurally. R13.1 a message received from the other side of the in-process stream is used only as the source of permissiveProtoMerge (copied into the receiver's own message), which itself only reads it. R13.2 Invoke answers an unknown method with ErrMethodNotFound (Unimplemented) and NewStream with Unimplemented for unknown methods and ErrMethodShape (Internal) for a streaming-shape mismatch, all before a handler goroutine is started. R13.3 every path of both handler goroutines ends in ClientServerStream.Close, every channel operation in stream.go that can block is a select alternative to the stream context's Done, and Close cancels that context after closing serverSend. R13.4 the server's incoming metadata is a clone of the client's outgoing metadata and header/trailer handed to call options are clones. R13.5 headerC is closed only under headerM behind a not-yet-closed test. R13.6 Close assigns the error, then closes serverSend, then cancels. Also R13.7 ServerToClient registers every method and stream of the descriptor under /service/method. R13.8 header/trailer call options are honoured on the error path. R13.9 Invoke never returns SendMsg's io.EOF as the outcome. R13.10 pending headers go out with the status. R13.11 metadata kept by the server side is metadata.Join(current, md). R13.12 no UnmarshalOptions of the package discards unknown fields. R13.13 clientSend is closed at most once. Does NOT decide the property's core: equality of transcripts with a real gRPC transport for every script, status mapping of cancellation and deadlines, ordering of header versus messages.",
 		Assumptions: []string{"proto.Merge / Marshal+Unmarshal copy; select picks a ready case"},
 		Run:         runC13,
 		Controls: []Control{
